@@ -14,6 +14,7 @@ import ALV.Lemmas.C17FineLive
 import ALV.Lemmas.C17Rec
 import ALV.Lemmas.C17Spec
 import ALV.Lemmas.C17Mix
+import ALV.Lemmas.C17Src
 import ALV.Common.Audit
 
 namespace ALV.Props.C17
@@ -1236,6 +1237,125 @@ theorem alive_after_close_reachable :
     ((runSched ⟨true, false, []⟩ (init [.play [101] 2, .close])
         (mkSched [0,0,0,0,0,0,0,1,1,1,1,1,1,1,0,0,0,0])).1.log
       = [.playOk 0, .closeOk [true] 0]) := by decide
+
+-- ---------------------------------------------------------------------------------------------
+-- The regenerated synchronisation skeleton (translator harness/props/c17_tr.py → ALV/Gen/C17Src.lean)
+-- ---------------------------------------------------------------------------------------------
+open ALV.Gen.C17 in
+/-- **C17.src.1 src_skeleton_is_documented** — the skeleton the translator extracted from
+`audiolazy/lazy_io.py` on THIS run (for each anchored method of `AudioIO` / `AudioThread`: its lock
+blocks, guards, loops, `try … finally`, and the operations on events / threads / lists / the backend, in
+source order and with their nesting) is the skeleton the transition system was written against.
+Reordering two operations, moving one into or out of a `with` block, dropping a `finally`, changing a
+guard or adding an operation on a shared object breaks this theorem. -/
+theorem src_skeleton_is_documented : skeleton = documentedSkeleton := by decide
+
+/-- `Cfg.fixed` as the source has it (`none`: neither variant of the model) -/
+def srcFixed : Option Bool :=
+  variantOf (lookupSk ALV.Gen.C17.skeleton "AudioThread.stop") (lookupSk ALV.Gen.C17.skeleton "AudioThread.run")
+/-- `FCfg.dieFixed` as the source has it -/
+def srcDieFixed : Option Bool := dieVariantOf (lookupSk ALV.Gen.C17.skeleton "AudioThread.run")
+
+/-- **C17.src.2 src_variant_is_modelled** — the two switches of the model are READ from the
+regenerated skeleton (does `stop()` set the event, does `run` re-test `halting`; is the loop of `run`
+inside `try … finally` with the epilogue as its `finally`), and the source is the repaired variant of
+both (the one the liveness theorems `shutdown_fixed` / `fine_shutdown_with_raising_iterables` are
+about). -/
+theorem src_variant_is_modelled : srcFixed = some true ∧ srcDieFixed = some true := by decide
+
+open ALV.Gen.C17 in
+/-- **C17.src.3 src_run_is_model** — the program counters of a player thread (`PPc`, the pending
+operations `stepPlayer` branches on) are exactly the yield points of the regenerated
+`AudioThread.run` with `thread_finished` inlined — the same operations, in source order, each with
+the same locks held (`closeStream` and the acquisition of the manager's lock under the thread's own
+lock: the nesting `lock_order` is about). -/
+theorem src_run_is_model : yieldsOf skeleton "AudioThread.run" = runPcs.filterMap ppcY := by decide
+
+open ALV.Gen.C17 in
+/-- **C17.src.4 src_play_is_model** — `AudioIO.play` with `AudioThread.__init__` inlined: lock,
+(`ThreadError` leaves the lock), `go.set()`, `pa.open`, `start()`, unlock = `pAcq … pRel`. -/
+theorem src_play_is_model (f : Bool) : yieldsOf skeleton "AudioIO.play" = playPcs.filterMap (mpcY f) := by
+  cases f <;> decide
+
+open ALV.Gen.C17 in
+/-- **C17.src.5 src_close_is_model** — `AudioIO.close` with `thread.stop()` inlined (and hence
+`__exit__` and `terminate`, which only call it): `halting` lock, manager lock around the look at
+`_threads[0]`, the thread's own lock around the event operation of `stop()` — the one read from the
+source —, `join`, (a failing `assert` leaves `halting`), `terminate`, unlock = `kHAcq … kHRel`. -/
+theorem src_close_is_model :
+    yieldsOf skeleton "AudioIO.close" = closePcs.filterMap (mpcY (srcFixed.getD false)) ∧
+    lookupSk skeleton "AudioIO.__exit__" = .op (.call .close) .done ∧
+    lookupSk skeleton "AudioIO.terminate" = .op (.call .close) .done := by decide
+
+/-- the method behind a control call -/
+def ctlMethod : Ctl → String
+  | .pause => "AudioThread.pause"
+  | .resume => "AudioThread.play"
+  | .stop => "AudioThread.stop"
+
+open ALV.Gen.C17 in
+/-- **C17.src.6 src_ctl_is_model** — `pause` / `play` / `stop` of a thread: own lock, ONE event
+operation (`clear` / `set` / the one of `stop()` read from the source), unlock = `cAcq, cEvt, cRel`;
+and `stop()` is the only one that sets `halting`, before its event operation (as `cAcq` does). -/
+theorem src_ctl_is_model (k : Ctl) :
+    yieldsOf skeleton (ctlMethod k) = (ctlPcs k).filterMap (mpcY (srcFixed.getD false)) ∧
+    ((opsOf (lookupSk skeleton (ctlMethod k))).contains (.setHalting true) = (k == .stop)) := by
+  cases k <;> decide
+
+/-- **C17.src.7 src_yields_drive_the_steps** — what the yield-point tables mean for the step
+functions, for every state: a player thread is enabled exactly when the yield point of its program
+counter is (blocked only by the lock it acquires there / by `go.wait()` on a cleared event); the
+control thread blocks on an acquisition exactly when the lock named there is held, on a `join`
+exactly until the thread is done; and the event operation at `cEvt` / `kSEvt` is the one `ctlOp`
+names. -/
+theorem src_yields_drive_the_steps (cfg : Cfg) (s : State) :
+    (∀ i p, s.players[i]? = some p → (p.pc = .write → p.todo ≠ [] ∨ p.fail = true) →
+      (stepPlayer cfg s i).isSome = (p.pc == .begin || yEnabled s p false (ppcY p.pc))) ∧
+    (∀ f l held p, mpcY f s.mpc = some (.acq l, held) →
+      (∀ i, mpcTarget s.mpc = some i → s.players[i]? = some p) →
+      (stepMain cfg s).isSome = (lockOf s p l).isNone) ∧
+    (∀ i, s.mpc = .kJoin i ∨ s.mpc = .jJoin i → (stepMain cfg s).isSome = isDone s i) ∧
+    (∀ k, ctlOp cfg.fixed k = if ctlGo cfg k then Op.goSet else Op.goClear) :=
+  ⟨fun i p hp hw => player_enabled_iff cfg s i p hp hw,
+   fun f l held p hy hp => main_acq_enabled_iff cfg f s l held hy p hp,
+   fun i h => main_join_enabled_iff cfg s i h,
+   fun k => ctlGo_is_ctlOp cfg k⟩
+
+/-- **C17.src.8 src_shutdown** — the liveness clause for the source AS READ: for the configuration
+whose `fixed` switch is the one extracted from `lazy_io.py` on this run, `wait=False`, every schedule
+of a script that calls `close` (no `join`), continued while some thread is enabled, ends with `close`
+returned, all streams closed, the backend terminated once, no player alive (`shutdown_fixed`); and,
+with the `dieFixed` switch extracted on this run, the same over the fine-grained system for played
+iterables that raise (`fine_shutdown_with_raising_iterables`). -/
+theorem src_shutdown (cfg : Cfg) (script : List Cmd) (hf : some cfg.fixed = srcFixed)
+    (hw : cfg.wait = false) (hj : ∀ i, Cmd.join i ∉ script) (hc : Cmd.close ∈ script) :
+    (∀ (sched : List Tid), (runSched cfg (init script) sched).2 = [] →
+      terminal cfg (runSched cfg (init script) sched).1 = true →
+      (runSched cfg (init script) sched).1.mpc = .done ∧
+      closedAfter (runSched cfg (init script) sched).1 = true ∧
+      noneAlive (runSched cfg (init script) sched).1 = true ∧
+      (runSched cfg (init script) sched).1.terminated = 1) ∧
+    (∀ (d : Bool), some d = srcDieFixed → PosCs script →
+      ∀ (sched : List Tid), (runSchedF ⟨cfg, d⟩ (initF script) sched).2 = [] →
+      terminalF ⟨cfg, d⟩ (runSchedF ⟨cfg, d⟩ (initF script) sched).1 = true →
+      (runSchedF ⟨cfg, d⟩ (initF script) sched).1.base.mpc = .done ∧
+      closedAfter (runSchedF ⟨cfg, d⟩ (initF script) sched).1.base = true ∧
+      noneAlive (runSchedF ⟨cfg, d⟩ (initF script) sched).1.base = true) := by
+  have hfix : cfg.fixed = true := by
+    have := src_variant_is_modelled.1; rw [this] at hf; exact Option.some.inj hf
+  refine ⟨fun sched hrun ht => ?_, fun d hd hpos sched hrun ht => ?_⟩
+  · obtain ⟨h1, _, h3, h4, h5⟩ := (shutdown_fixed cfg script hfix hw hj hc sched hrun).2 ht
+    exact ⟨h1, h3, h4, h5⟩
+  · have hdie : d = true := by
+      have := src_variant_is_modelled.2; rw [this] at hd; exact Option.some.inj hd
+    exact fine_shutdown_with_raising_iterables ⟨cfg, d⟩ script hdie hpos hc hfix hw hj sched hrun ht
+
+/-- non-vacuity of `src_shutdown`: the configuration read from the source, a paused player -/
+example : some (⟨false, true, []⟩ : Cfg).fixed = srcFixed ∧ some true = srcDieFixed ∧
+    (runSched ⟨false, true, []⟩ (init [.play [101] 2, .ctl .pause 0, .close])
+      (mkSched ([0,0,0,0,0,0,0,0,0,0,0,0,1,1,1,1,0,0,0] ++ [1,1,1,1,1,1,0,0,0,0,0]))).2 = [] := by
+  decide
+
 
 end ALV.Props.C17
 
